@@ -149,8 +149,13 @@ class H(object):
                         traceback.format_exc())
             raise
         detail = ''
+        extra = None
         if isinstance(res, tuple):
-            res, detail = res
+            if len(res) == 3:
+                res, detail, extra = res
+            else:
+                res, detail = res
+        cls._extra = extra
         if res:
             cls.stats['paths_done'] += 1
             key = ','.join(sorted(cls._path_marks))
@@ -179,6 +184,7 @@ class H(object):
                     reals[k] = None
             doc = {'condition': cond_name, 'inputs': _jsonable(conc), 'reals': reals,
                    'detail': _jsonable(ch.deep_realize(detail)), 'traceback': tb,
+                   'info': _jsonable(getattr(cls, '_extra', None)),
                    'marks': sorted(cls._path_marks or ())}
             with open(cls.cex_path, 'w') as f:
                 json.dump(doc, f, indent=1)
@@ -282,4 +288,23 @@ def catch(fn, *a, **kw):
     except Reject:
         raise
     except Exception as e:
-        return ('exc', type(e).__name__, str(e)[:200])
+        tb = traceback.extract_tb(e.__traceback__)
+        where = ' <- '.join('%s:%d' % (os.path.basename(f.filename), f.lineno)
+                            for f in reversed(tb[-4:]))
+        return ('exc', type(e).__name__, str(e)[:200] + ' @ ' + where)
+
+
+def shadow_type(real, conv):
+    """A stand-in for a builtin type (int/float) inside a re-hosted module: calling it runs
+    `conv` (which understands abstract numerals), while isinstance/issubclass behave exactly
+    like the real type."""
+    class _Meta(type):
+        def __instancecheck__(cls, obj):
+            return isinstance(obj, real)
+
+        def __subclasscheck__(cls, sub):
+            return issubclass(sub, real)
+
+        def __call__(cls, *a, **kw):
+            return conv(*a, **kw)
+    return _Meta(real.__name__, (), {})
